@@ -35,6 +35,7 @@ type C04Case struct {
 	Channel    bool       `json:"channel"`           // run through a real channel + read loop
 	Consume    string     `json:"consume,omitempty"` // how the consumer reads a message: "" readall | copy | tobytes
 	Hold       bool       `json:"hold,omitempty"`    // the next outbound handler keeps every emitted message and serialises them only after the last encode
+	Arena      bool       `json:"arena,omitempty"`   // the caller keeps all payloads back to back in one buffer and hands sub-slices (with spare capacity) to the encoder
 }
 
 var c04Carriers = []string{"bytes", "string", "buffer", "breader", "sreader", "bb", "reader", "short"}
@@ -121,6 +122,22 @@ func carrierOf(kind string, p []byte, seed int) interface{} {
 		return &shortReader{data: append([]byte{}, p...), step: 1 + seed%7}
 	}
 	return append([]byte{}, p...)
+}
+
+// carrierShared hands the encoder the caller's own memory: p is a sub-slice of a larger buffer whose spare
+// capacity holds the caller's next payloads.
+func carrierShared(kind string, p []byte, seed int) interface{} {
+	switch kind {
+	case "bytes":
+		return p
+	case "bb":
+		k := 0
+		if len(p) > 0 {
+			k = seed % (len(p) + 1)
+		}
+		return [][]byte{p[:k], {}, p[k:]}
+	}
+	return carrierOf(kind, p, seed)
 }
 
 func genCodec(t *rapid.T, smallMax bool) wire.Codec {
@@ -266,10 +283,15 @@ func genC04(t *rapid.T) C04Case {
 			c.Cuts = append(c.Cuts, rapid.IntRange(100, 5000).Draw(t, "tail"))
 		}
 	}
-	c.End = "eof" // data returned together with io.EOF is not a transport-read fragmentation; see C14
+	c.End = "eof"
+	if rapid.IntRange(0, 3).Draw(t, "eofdata") == 1 {
+		// the last transport read returns its bytes together with io.EOF (io.Reader allows it; TLS and pipes do it)
+		c.End = "eofdata"
+	}
 	c.Channel = rapid.IntRange(0, 49).Draw(t, "layer") == 0
 	c.Consume = rapid.SampledFrom([]string{"", "", "copy", "tobytes"}).Draw(t, "consume")
 	c.Hold = rapid.IntRange(0, 3).Draw(t, "hold") == 0
+	c.Arena = rapid.IntRange(0, 3).Draw(t, "arena") == 0
 	return c
 }
 
@@ -339,6 +361,21 @@ func runC04(c C04Case) (out core.Outcome) {
 			cls.Add("held-frames")
 		}
 	}()
+	// arena mode: every payload lives in one buffer of the caller, back to back, followed by a guard zone
+	var arena, pristine []byte
+	var arenaOff []int
+	if c.Arena {
+		for _, f := range c.Frames {
+			pl, _ := payloadBytes(cd, f.Len, f.Seed)
+			arenaOff = append(arenaOff, len(arena))
+			arena = append(arena, pl...)
+		}
+		arenaOff = append(arenaOff, len(arena))
+		arena = append(arena, bytes.Repeat([]byte{0xEE}, 24)...)
+		arena = append(make([]byte, 0, len(arena)), arena...) // exact capacity
+		pristine = append([]byte{}, arena...)
+		cls.Add("arena")
+	}
 	for i, f := range c.Frames {
 		payload, repaired := payloadBytes(cd, f.Len, f.Seed)
 		if repaired {
@@ -376,7 +413,16 @@ func runC04(c C04Case) (out core.Outcome) {
 					}
 				}
 			}}
-			pv := mock.Catch(func() { enc.HandleWrite(ctx, carrierOf(f.Carrier, payload, f.Seed)) })
+			msg := carrierOf(f.Carrier, payload, f.Seed)
+			if c.Arena {
+				msg = carrierShared(f.Carrier, arena[arenaOff[i]:arenaOff[i+1]], f.Seed)
+			}
+			pv := mock.Catch(func() { enc.HandleWrite(ctx, msg) })
+			if c.Arena && !bytes.Equal(arena, pristine) {
+				d := firstDiff(arena, pristine)
+				out.Violation = core.Viol("C04/encoder-wrote-into-callers-buffer:"+cd.Kind, "frame %d (%d bytes, carrier %s): after the encoder returned, the caller's buffer differs at offset %d (%d bytes behind the payload): % x, was % x — the payloads the caller keeps behind this one are no longer what it will send", i, len(payload), f.Carrier, d, d-arenaOff[i+1], arena[d:imin(len(arena), d+8)], pristine[d:imin(len(pristine), d+8)])
+				return
+			}
 			switch {
 			case pv != nil && refErr == nil && (cd.Kind != "varint" || len(payload) <= cd.Max):
 				out.Violation = core.Viol("C04/encoder-rejects-admissible:"+cd.Kind, "frame %d: encoder raised %v for an encodable %d-byte payload (carrier %s)", i, pv, len(payload), f.Carrier)
